@@ -173,6 +173,7 @@ func checkC13(w *World, r *Report) {
 	r.Rule("C13.gov", "P6,P8", "each keeper's authority field is the NewKeeper parameter; app.New passes appparams.GetAuthority(); its backing variable has a single writer assigning NewModuleAddress(gov.ModuleName).String(), called from the package init", 8)
 	r.Rule("C13.validated", "P4,P5", "every store write to a module's ParamsKey is reached only through the nil edge of Validate() on the value that is marshalled", 7)
 	r.Rule("C13.endtime", "P7", "stored minter parameters keep the shape the block routine relies on: parameter validation rejects, on every path, a last period with an EndTime and a non-last period without one, and accepts the two well-formed combinations (the validation step explored under the four combinations of position and nil-ness)", 4)
+	r.Rule("C13.endorder", "P7", "stored periods do not overlap: the validation step that compares a period's EndTime with the start of its period (params.StartTime for the first, the predecessor's EndTime afterwards - looked up in the list, or carried through the loop and then verified to be refreshed on every succeeding path) rejects before / equal and accepts after, for the first and for a later position", 6)
 	r.Rule("C13.current", "P5", "every cfeminter parameter write reachable from a message is reached only through the true edge of ContainsMinter(current state's SequenceId)", 2)
 	r.Rule("C13.denom", "P5", "the vesting denom update is reached only through the edge on which the list of all vesting pools is empty", 1)
 	if !ro.checkFloors(r) {
@@ -388,6 +389,7 @@ func checkC13(w *World, r *Report) {
 			}}
 		containsMinterRule(w, r, "C13.current")
 		endTimeShapeRule(w, r, "C13.endtime")
+		endOrderRule(w, r, "C13.endorder")
 		for _, h := range ro.MSG["cfeminter"] {
 			res := cg.GuardCover(h, func(s *Site) bool {
 				if cg.Atom(s) != StoreSet {
@@ -604,4 +606,254 @@ func endTimeShapeRule(w *World, r *Report, rule string) {
 			r.Check(nFail == 0 && nOK > 0, rule, c.name, w.Pos(fn.Pos()), "no live return carries an error", "parameter validation rejects a well-formed period list")
 		}
 	}
+}
+
+// endOrderRule (C13.endorder): stored periods do not overlap - parameter validation rejects a list in which a period
+// with an end does not end AFTER the start of its own period: the first one after params.StartTime, every later one
+// after its predecessor's EndTime. The validation step that makes the comparison is explored under (position 0 / a
+// middle position) x (end before / equal to / after the reference): it must fail in the first two and succeed in the
+// third. The reference may be looked up in the list (`params.Minters[pos-1].EndTime`) or be carried through the loop as
+// a parameter; in the second form the rule also verifies the carried value: the step returns this period's own EndTime
+// on every succeeding path, and the loop feeds the step's result back into it, starting from params.StartTime.
+func endOrderRule(w *World, r *Report, rule string) {
+	cg := w.CG()
+	vpm := w.Func("x/cfeminter/types.Params.ValidateParamsMinters")
+	if vpm == nil {
+		r.Unk("infra.anchor", "x/cfeminter/types.Params.ValidateParamsMinters", "", "anchor not found")
+		return
+	}
+	isEnd := func(v ssa.Value) bool {
+		u, ok := v.(*ssa.UnOp)
+		return ok && u.Op == token.MUL && loadOfField(u.X, "EndTime", nil)
+	}
+	isTimeCmp := func(n string) bool {
+		return n == "time.Time.Before" || n == "time.Time.After" || n == "time.Time.Equal"
+	}
+	comparesEnd := func(f *ssa.Function) bool {
+		for _, s := range cg.Sites[f] {
+			if isTimeCmp(s.CalleeName()) {
+				for _, a := range s.Common().Args {
+					if isEnd(a) {
+						return true
+					}
+				}
+				continue
+			}
+			// the comparison written as a predicate helper that is handed the end (`notAfter(minter.EndTime, limit)`)
+			if h := s.Static; h != nil && !s.Invoke && boolResult(h) && w.isProdFunc(h) {
+				handed := false
+				for _, a := range s.Common().Args {
+					if isEnd(a) || loadOfField(a, "EndTime", nil) {
+						handed = true
+					}
+				}
+				if handed {
+					for _, s2 := range cg.Sites[h] {
+						if isTimeCmp(s2.CalleeName()) {
+							return true
+						}
+					}
+				}
+			}
+		}
+		return false
+	}
+	// the step: a module function reached from the validation loop (at most two calls down) that compares an EndTime
+	var step *ssa.Function
+	var stepCall *Site
+	seen := map[*ssa.Function]bool{vpm: true}
+	frontier := []*ssa.Function{vpm}
+	for depth := 0; depth < 3 && step == nil; depth++ {
+		var next []*ssa.Function
+		for _, f := range frontier {
+			for _, s := range cg.Sites[f] {
+				h := s.Static
+				if h == nil || s.Invoke || seen[h] || !w.isProdFunc(h) || moduleOfFunc(h) != "cfeminter" {
+					continue
+				}
+				seen[h] = true
+				var ints int
+				for _, p := range h.Params {
+					if b, ok := p.Type().Underlying().(*types.Basic); ok && b.Info()&types.IsInteger != 0 {
+						ints++
+					}
+				}
+				if ints >= 2 && comparesEnd(h) && !strings.HasSuffix(funcName(h), "validateEndTimeExistance") {
+					step, stepCall = h, s
+				}
+				next = append(next, h)
+			}
+		}
+		frontier = next
+	}
+	if step == nil {
+		r.Unk(rule, "the validation step that compares a period's EndTime with the start of its period", w.Pos(vpm.Pos()), "no function below ValidateParamsMinters takes a position and the last position and compares an EndTime")
+		return
+	}
+	var ints []*ssa.Parameter
+	var carried *ssa.Parameter
+	for _, p := range step.Params {
+		if b, ok := p.Type().Underlying().(*types.Basic); ok && b.Info()&types.IsInteger != 0 {
+			ints = append(ints, p)
+		}
+		if typeString(p.Type()) == "time.Time" {
+			carried = p
+		}
+	}
+	pos, last := ints[0], ints[1]
+	isParam := func(v ssa.Value, p *ssa.Parameter) bool {
+		return p != nil && (v == ssa.Value(p) || normLocal(v) == ssa.Value(p))
+	}
+	term := func(v ssa.Value) string {
+		switch {
+		case isParam(v, pos):
+			return "pos"
+		case isParam(v, last):
+			return "last"
+		case isParam(v, carried):
+			return "ref"
+		case loadOfField(v, "StartTime", nil):
+			return "ref"
+		}
+		if c, ok := v.(*ssa.Const); ok && c.Value != nil && c.Value.ExactString() == "0" {
+			return "zero"
+		}
+		if isEnd(v) {
+			// this period's end (through the period handed in) or the predecessor's (through an element of the list)
+			u := v.(*ssa.UnOp)
+			if _, f, isF := elemField(u.X); isF {
+				_ = f
+			}
+			if rootParam(u.X) != "" {
+				for _, p := range step.Params {
+					if rootParam(u.X) == p.Name() && strings.HasSuffix(typeString(p.Type()), "types.Minter") {
+						return "end"
+					}
+				}
+			}
+			return "ref"
+		}
+		return ""
+	}
+	for _, sc := range []struct {
+		name string
+		rank map[string]int
+	}{
+		{"first period", map[string]int{"zero": 0, "pos": 0, "last": 2}},
+		{"later period", map[string]int{"zero": 0, "pos": 1, "last": 2}},
+	} {
+		for s := -1; s <= 1; s++ {
+			s := s
+			sc := sc
+			cmp := func(a, b string) (int, bool) {
+				ra, oka := sc.rank[a]
+				rb, okb := sc.rank[b]
+				switch {
+				case oka && okb:
+					switch {
+					case ra < rb:
+						return -1, true
+					case ra > rb:
+						return 1, true
+					}
+					return 0, true
+				case a == "end" && b == "ref":
+					return s, true
+				case a == "ref" && b == "end":
+					return -s, true
+				case a == b:
+					return 0, true
+				}
+				return 0, false
+			}
+			live := ReachUnder(step, OrderEval(term, cmp, func(t string) (bool, bool) {
+				if t == "end" || t == "ref" {
+					return false, true
+				}
+				return false, false
+			}))
+			nFail, nOK := 0, 0
+			carriedOK := true
+			for _, ret := range Returns(step) {
+				if !live.Blocks[ret.Block()] {
+					continue
+				}
+				rv := retVals(ret)
+				failing := false
+				if len(rv) > 0 && isErrorType(rv[len(rv)-1].Type()) {
+					vals := live.LiveValues(rv[len(rv)-1])
+					failing = len(vals) > 0
+					for _, v := range vals {
+						if isNilConst(v) {
+							failing = false
+						}
+					}
+				}
+				if failing {
+					nFail++
+					continue
+				}
+				nOK++
+				// carried form: what is handed to the next iteration is this period's own end
+				if carried != nil && s > 0 {
+					for i, v := range rv {
+						if typeString(v.Type()) != "time.Time" {
+							continue
+						}
+						_ = i
+						for _, lv := range live.LiveValues(v) {
+							if term(lv) != "end" || !isEnd(lv) {
+								carriedOK = false
+							}
+						}
+					}
+				}
+			}
+			construct := fmt.Sprintf("%s: EndTime %s the start of its period", sc.name, orderNames[s])
+			if s <= 0 {
+				r.Check(nOK == 0 && nFail > 0, rule, construct+" is rejected", w.Pos(step.Pos()), "every live return carries an error", "parameter validation can accept a period that does not end after the start of its period (the predecessor's end, or params.StartTime for the first): stored periods overlap or have a negative length")
+			} else {
+				r.Check(nFail == 0 && nOK > 0, rule, construct+" is accepted", w.Pos(step.Pos()), "no live return carries an error", "parameter validation rejects a well-formed period list")
+				if carried != nil {
+					r.Check(carriedOK, rule, sc.name+": the reference handed to the next period is this period's EndTime", w.Pos(step.Pos()), "every succeeding return hands *minter.EndTime on", "the reference carried through the validation loop is not refreshed with this period's EndTime on every succeeding path: later periods are compared with a stale instant")
+				}
+			}
+		}
+	}
+	if carried != nil {
+		// the loop feeds the step's result back into it, starting from params.StartTime
+		okFeed := false
+		if stepCall != nil && stepCall.Caller == vpm {
+			idx := paramIndex(step, carried)
+			if idx >= 0 && idx < len(stepCall.Common().Args) {
+				if phi, isPhi := stepCall.Common().Args[idx].(*ssa.Phi); isPhi {
+					fromStart, fromCall := false, false
+					for _, e := range phi.Edges {
+						switch {
+						case loadOfField(e, "StartTime", nil):
+							fromStart = true
+						default:
+							if ex, isEx := e.(*ssa.Extract); isEx && ex.Tuple == siteValue(stepCall) {
+								fromCall = true
+							} else if ssa.Value(e) == siteValue(stepCall) {
+								fromCall = true
+							}
+						}
+					}
+					okFeed = fromStart && fromCall && len(phi.Edges) == 2
+				}
+			}
+		}
+		r.Check(okFeed, rule, "the reference is carried from params.StartTime through the results of the step", w.Pos(vpm.Pos()), "phi(params.StartTime, result of the previous iteration's call)", "the instant each period's end is compared with is not params.StartTime for the first period and the previous call's result afterwards")
+	}
+}
+
+// boolResult: the function has a single bool result.
+func boolResult(f *ssa.Function) bool {
+	res := f.Signature.Results()
+	if res.Len() != 1 {
+		return false
+	}
+	b, ok := res.At(0).Type().Underlying().(*types.Basic)
+	return ok && b.Kind() == types.Bool
 }
